@@ -1,8 +1,8 @@
 (* C02 - the statements of Props/C02.v in their final form (Z-level bounds,
    HAP instance), assembled from Proofs/SrpBytes.v, Proofs/Srp.v, Proofs/SrpBig.v. *)
 From Coq Require Import List NArith ZArith Arith Bool Lia ZifyN ZifyNat ZifyBool.
-From AHK Require Import Lib.Res Lib.ByteStr Model.Sha512 Model.Srp Model.SrpBig
-  Proofs.Sha512 Proofs.SrpBytes Proofs.Srp Proofs.SrpBig.
+From AHK Require Import Lib.Res Lib.ByteStr Model.Sha512 Model.Srp Model.SrpServer Model.SrpBig
+  Proofs.Sha512 Proofs.SrpBytes Proofs.Srp Proofs.SrpServer Proofs.SrpBig.
 Import ListNotations.
 Local Open Scope Z_scope.
 
@@ -148,4 +148,84 @@ Proof.
   intros Ha Hlen Hsalt Hr Hok.
   apply (wrong_code sha512 powm N3072 G3072 K_LITERAL HGROUP_BYTES HK_KEY_LENGTH SALT_LENGTH
            powm_spec N3072_pos N3072_fits hgroup_constant I P P' salt a b r); assumption.
+Qed.
+
+(* ------------------------------------------------------------ SrpServer, HAP instance *)
+
+Lemma hap_srpserver_closed (I P salt : bytes) b (A_b M1_b : bytes) :
+  0 <= b -> length A_b = 384%nat -> all_bytes A_b = true ->
+  let s := hap_server I P salt b A_b M1_b in
+  hap_srpserver powm false I P salt b (inr A_b) M1_b =
+  Ok {| p_B := s_B s; p_B_b := s_B_b s; p_A_b := A_b; p_S := s_S s; p_K := s_K s; p_M1 := s_M1 s;
+        p_ok := (from_bytes M1_b =? from_bytes (s_M1 s)); p_M2 := s_M2 s;
+        p_M2_int := rbind (padded (from_bytes M1_b) PROOF_LENGTH)
+                          (fun al => Ok (from_bytes (sha512 (A_b ++ al ++ s_K s)))) |}.
+Proof.
+  intros Hb Hlen Hall.
+  apply (srpserver_bytes_closed sha512 powm N3072 G3072 K_LITERAL HGROUP_BYTES HK_KEY_LENGTH PROOF_LENGTH
+           powm_spec N3072_pos N3072_fits k_constant hgroup_constant); assumption.
+Qed.
+
+Lemma hap_srpserver_int_path guard (I P salt : bytes) b A (M1_b : bytes) :
+  0 <= A < 256 ^ Z.of_nat HK_KEY_LENGTH ->
+  hap_srpserver powm guard I P salt b (inl A) M1_b =
+  hap_srpserver powm guard I P salt b (inr (PAD HK_KEY_LENGTH A)) M1_b.
+Proof.
+  intros [HA Hlt].
+  apply (srpserver_int_path sha512 powm N3072 G3072 K_LITERAL HGROUP_BYTES HK_KEY_LENGTH PROOF_LENGTH
+           powm_spec N3072_pos N3072_fits); [assumption|].
+  apply bound_Z_N; assumption.
+Qed.
+
+Lemma hap_srpserver_guarded_iff_spec (I P salt : bytes) b (A_b M1_b : bytes) :
+  0 <= b -> length A_b = 384%nat -> all_bytes A_b = true ->
+  length M1_b = 64%nat -> all_bytes M1_b = true ->
+  ((exists r, hap_srpserver powm true I P salt b (inr A_b) M1_b = Ok r /\ p_ok r = true) <->
+   s_ok (hap_server I P salt b A_b M1_b) = true).
+Proof.
+  intros Hb Hlen Hall HlenM HallM.
+  apply (srpserver_guarded_iff_spec sha512 powm N3072 G3072 K_LITERAL HGROUP_BYTES HK_KEY_LENGTH PROOF_LENGTH
+           powm_spec N3072_pos N3072_fits k_constant hgroup_constant I P salt b A_b M1_b Hb Hlen Hall
+           sha512_length sha512_bytes HlenM HallM).
+Qed.
+
+Lemma hap_srpserver_zero_key (I P salt : bytes) b :
+  0 < b ->
+  let B_b := sv_public sha512 N3072 G3072 HK_KEY_LENGTH I P salt b in
+  let forged := sha512 (HGROUP_BYTES ++ sha512 I ++ salt ++ PAD HK_KEY_LENGTH 0 ++ B_b
+                        ++ sha512 (PAD HK_KEY_LENGTH 0)) in
+  exists r, hap_srpserver powm false I P salt b (inr (PAD HK_KEY_LENGTH 0)) forged = Ok r /\
+            p_B_b r = B_b /\ p_ok r = true /\ p_K r = sha512 (PAD HK_KEY_LENGTH 0) /\
+            s_ok (hap_server I P salt b (PAD HK_KEY_LENGTH 0) forged) = false.
+Proof.
+  intros Hb.
+  apply (srpserver_zero_key sha512 powm N3072 G3072 K_LITERAL HGROUP_BYTES HK_KEY_LENGTH PROOF_LENGTH
+           powm_spec N3072_pos N3072_fits k_constant hgroup_constant); assumption.
+Qed.
+
+(* the real controller and SrpServer (either variant) complete an exchange: corollary of
+   hap_exchange and hap_srpserver_closed *)
+Lemma hap_client_srpserver (I P salt : bytes) a b :
+  0 <= a -> 0 <= b -> length salt = 16%nat -> all_bytes salt = true ->
+  let B_b := sv_public sha512 N3072 G3072 HK_KEY_LENGTH I P salt b in
+  exists r q, hap_client powm I P a salt B_b = Ok r /\
+    hap_srpserver powm true I P salt b (inr (r_A_b r)) (r_M1 r) = Ok q /\
+    p_B_b q = B_b /\ p_ok q = true /\ p_K q = r_K r /\ cl_accepts r (p_M2 q) = true.
+Proof.
+  intros Ha Hb Hlen Hsalt B_b.
+  destruct (hap_exchange I P salt a b Ha Hb Hlen Hsalt) as [r [Hr Hx]]. cbv zeta in Hx.
+  destruct Hx as [EA [_ [EB [_ [EK [EM1 [Hok [_ Hacc]]]]]]]].
+  assert (HlenA : length (r_A_b r) = 384%nat) by (rewrite EA; apply PAD_length).
+  assert (HallA : all_bytes (r_A_b r) = true) by (rewrite EA; apply be_enc_bytes).
+  pose proof (hap_srpserver_closed I P salt b (r_A_b r) (r_M1 r) Hb HlenA HallA) as Hc. cbv zeta in Hc.
+  assert (Hnz : (from_bytes (r_A_b r) mod N3072 =? 0) = false).
+  { unfold hap_server, server in Hok. cbn [s_ok] in Hok. apply andb_true_iff in Hok.
+    destruct Hok as [Hn _]. now apply negb_true_iff in Hn. }
+  exists r. eexists. split; [exact Hr|]. split.
+  - unfold hap_srpserver.
+    rewrite (srpserver_guard sha512 powm N3072 G3072 K_LITERAL HGROUP_BYTES HK_KEY_LENGTH PROOF_LENGTH
+               powm_spec N3072_pos N3072_fits I P salt b (r_A_b r) (r_M1 r) Hb).
+    rewrite Hnz. exact Hc.
+  - cbn [p_B_b p_ok p_K p_M2]. split; [exact EB|]. split; [rewrite <- EM1; apply Z.eqb_refl|].
+    split; [symmetry; exact EK|exact Hacc].
 Qed.
